@@ -190,6 +190,9 @@ class TrackRecord:
             risk_free = self.risk_free
         except AttributeError:
             risk_free = 0
+        if risk_free is None:
+            # TradingEnv.backtest stores None when no risk-free series is given.
+            risk_free = 0
         try:
             benchmark = self.benchmark
         except AttributeError:
